@@ -1,6 +1,7 @@
 package props
 
 import (
+	"go/token"
 	"fmt"
 	"go/ast"
 	"go/constant"
@@ -127,6 +128,7 @@ func runC12(c *engine.Ctx, tier string) {
 	c12Tables(c, d)
 	c12Regexp(c, d)
 	c12NaN(c, d)
+	c12WaitGroups(c, d)
 }
 
 func c12Dump(c *engine.Ctx, d *c12Data) {
@@ -1125,4 +1127,137 @@ func (n *c12Null) lenGuardedByCallers(c *engine.Ctx, fn *engine.FuncInfo, canon 
 		return false
 	}
 	return true
+}
+
+// ---- C12.7: WaitGroup / close discipline around helper goroutines
+
+func c12WaitGroups(c *engine.Ctx, d *c12Data) {
+	o := c.Custom("C12.7", "typestate(WaitGroup, close)", "a goroutine that calls wg.Done() is started after wg.Add in the starting goroutine (the Add lexically precedes the go statement in the same function and is not inside the started function), and a channel that is closed after wg.Wait() is sent to only by goroutines that hold that WaitGroup (defer wg.Done())",
+		"Add inside the goroutine races with Wait: the channel is closed while a worker still sends on it — a panic in a helper goroutine that no handler-level recover can catch")
+	defer o.Done(1)
+	for _, pkg := range c.P.Pkgs {
+		rel := strings.TrimPrefix(pkg.PkgPath, engine.ModulePath+"/")
+		if !strings.HasPrefix(rel, "pkg/") {
+			continue
+		}
+		info := pkg.TypesInfo
+		isWG := func(e ast.Expr) types.Object {
+			id, ok := ast.Unparen(e).(*ast.Ident)
+			if !ok {
+				return nil
+			}
+			obj := info.Uses[id]
+			if obj == nil {
+				return nil
+			}
+			if strings.HasSuffix(strings.TrimPrefix(obj.Type().String(), "*"), "sync.WaitGroup") {
+				return obj
+			}
+			return nil
+		}
+		for _, fi := range c.P.FuncsOf(pkg) {
+			if !d.reachAll[fi.Name()] {
+				continue
+			}
+			// collect per function: Add calls (outside literals: position), go statements with literals
+			type goLit struct {
+				stmt  *ast.GoStmt
+				lit   *ast.FuncLit
+				dones map[types.Object]bool
+				adds  map[types.Object]bool
+				waits map[types.Object]bool
+				sends map[types.Object]bool
+				close map[types.Object]bool
+			}
+			var lits []*goLit
+			addPos := map[types.Object][]token.Pos{}
+			var walk func(n ast.Node, cur *goLit)
+			walk = func(n ast.Node, cur *goLit) {
+				ast.Inspect(n, func(m ast.Node) bool {
+					switch x := m.(type) {
+					case *ast.GoStmt:
+						if fl, ok := x.Call.Fun.(*ast.FuncLit); ok {
+							g := &goLit{stmt: x, lit: fl, dones: map[types.Object]bool{}, adds: map[types.Object]bool{}, waits: map[types.Object]bool{}, sends: map[types.Object]bool{}, close: map[types.Object]bool{}}
+							lits = append(lits, g)
+							walk(fl.Body, g)
+							for _, a := range x.Call.Args {
+								walk(a, cur)
+							}
+							return false
+						}
+					case *ast.CallExpr:
+						if sel, ok := x.Fun.(*ast.SelectorExpr); ok {
+							if w := isWG(sel.X); w != nil {
+								switch sel.Sel.Name {
+								case "Add":
+									if cur != nil {
+										cur.adds[w] = true
+									} else {
+										addPos[w] = append(addPos[w], x.Pos())
+									}
+								case "Done":
+									if cur != nil {
+										cur.dones[w] = true
+									}
+								case "Wait":
+									if cur != nil {
+										cur.waits[w] = true
+									}
+								}
+							}
+						}
+						if id, ok := x.Fun.(*ast.Ident); ok && id.Name == "close" && len(x.Args) == 1 && cur != nil {
+							if cid, ok := ast.Unparen(x.Args[0]).(*ast.Ident); ok && info.Uses[cid] != nil {
+								cur.close[info.Uses[cid]] = true
+							}
+						}
+					case *ast.SendStmt:
+						if cid, ok := ast.Unparen(x.Chan).(*ast.Ident); ok && info.Uses[cid] != nil && cur != nil {
+							cur.sends[info.Uses[cid]] = true
+						}
+					}
+					return true
+				})
+			}
+			walk(fi.Decl.Body, nil)
+			for _, g := range lits {
+				for w := range g.dones {
+					o.Site(c.P.Pos(g.stmt.Pos()) + " go func … " + w.Name() + ".Done() in " + fi.Name())
+					o.Eval(1)
+					if g.adds[w] {
+						o.Fail(&engine.Violation{Key: fi.Name() + "|" + w.Name() + ".Add inside the goroutine it accounts for", Pos: c.P.Pos(g.stmt.Pos()), Func: fi.Name(),
+							Msg: w.Name() + ".Add is called inside the goroutine whose Done it pairs with: Wait can return (and what follows it run) before the goroutine has registered"})
+						continue
+					}
+					before := false
+					for _, p := range addPos[w] {
+						if p < g.stmt.Pos() {
+							before = true
+						}
+					}
+					if !before {
+						o.Fail(&engine.Violation{Key: fi.Name() + "|goroutine started without a preceding " + w.Name() + ".Add", Pos: c.P.Pos(g.stmt.Pos()), Func: fi.Name(),
+							Msg: "a goroutine that calls " + w.Name() + ".Done() is started without a " + w.Name() + ".Add before the go statement"})
+					}
+				}
+			}
+			// channels closed after Wait: senders must hold the WaitGroup
+			for _, closer := range lits {
+				for ch := range closer.close {
+					for w := range closer.waits {
+						for _, g := range lits {
+							if g == closer || !g.sends[ch] {
+								continue
+							}
+							o.Eval(1)
+							if !g.dones[w] {
+								o.Fail(&engine.Violation{Key: fi.Name() + "|send on " + ch.Name() + " by a goroutine outside " + w.Name(), Pos: c.P.Pos(g.stmt.Pos()), Func: fi.Name(),
+									Msg: ch.Name() + " is closed after " + w.Name() + ".Wait(), but a goroutine that sends on it does not hold " + w.Name() + ": it can send after the close"})
+							}
+						}
+					}
+				}
+			}
+		}
+	}
 }
